@@ -37,6 +37,19 @@ pub(crate) mod verif_s {
         core::mem::forget(core::mem::replace(&mut sl.input_queues[0], q0));
         core::mem::forget(core::mem::replace(&mut sl.input_queues[1], q1));
     }
+    /// three-player variant of `install`
+    pub(crate) fn install3<T: Config<Input = u8, State = u32>>(
+        sl: &mut SyncLayer<T>,
+        current: Frame,
+        last_confirmed: Frame,
+        last_saved: Frame,
+        q0: InputQueue<T>,
+        q1: InputQueue<T>,
+        q2: InputQueue<T>,
+    ) {
+        install(sl, current, last_confirmed, last_saved, q0, q1);
+        core::mem::forget(core::mem::replace(&mut sl.input_queues[2], q2));
+    }
     pub(crate) fn num_cells<T: Config<Input = u8, State = u32>>(sl: &SyncLayer<T>) -> usize {
         sl.saved_states.states.len()
     }
